@@ -204,8 +204,20 @@ def weakset_list(ex, v):
 def b_set(ex, n, awaited, recv=None):
     if n.args:
         raise Unsupported('set(iterable)')
+    if getattr(ex, '_want_pyset', False):
+        # a set that is shared by reference (passed down a recursion): an object with identity, contents in the heap
+        s = ex.fresh_obj('PySet', 'set')
+        ex.write_field(s.term, 'set_members', V(Ty('set', (STR,)), z3.K(Ref, z3.BoolVal(False))))
+        return s
     et = getattr(ex, '_want_set_elem', None) or STR
     return V(Ty('set', (et,)), z3.K(et.sort(), z3.BoolVal(False)))
+
+
+def pyset_add(ex, n, awaited, recv):
+    x = coerce(ex.eval(n.args[0]), STR)
+    m = ex.read_field(recv.term, 'set_members')
+    ex.write_field(recv.term, 'set_members', V(m.ty, z3.Store(m.term, x.term, True)))
+    return mk_none()
 
 
 def b_sum(ex, n, awaited, recv=None):
@@ -432,6 +444,9 @@ def install(spec: Spec):
     })
     spec.methods[('Semaphore', 'acquire')] = sem_acquire
     spec.methods[('Semaphore', 'release')] = sem_release
+    spec.fields.setdefault('set_members', parse_ty('set[str]'))
+    smt.defclass('PySet', 'object')
+    spec.methods[('PySet', 'add')] = pyset_add
     spec.fields.setdefault('sem_value', INT)
     spec.fields.setdefault('sem_loop', parse_ty('opt[Loop]'))
     spec.fields.setdefault('g$current_loop', parse_ty('Loop'))
